@@ -269,6 +269,81 @@ def run(ctx):
                                  f"time_evolve(inplace={inplace}) answered for the non-Hermitian generator c T + c' T^dagger, c' != conj(c)", desc)
                 elif wsnap(tgt) != before:
                     ctx.disagree("refuse:operand-changed:individual-generator", f"operand changed by the refused time_evolve(inplace={inplace})", desc)
+    # ---- number-conservation mismatch through the polynomial propagators (apply and time_evolve refuse the same
+    #      operands with TypeError) -----------------------------------------------------------------------------------
+    for case in range(4 if quick else 24):
+        nb_ = 2
+        hmat = numpy.array([[0.3, 0.5], [0.5, -0.2]]) * rng.choice([1.0, -1.0, 0.5])
+        w_nb = fqe.get_spin_conserving_wavefunction(rng.choice([0, 1, -1]), nb_)
+        w_nc = fqe.Wavefunction([[2, 0, nb_]])
+        U.random_fill(w_nb, rng, zero_p=0.0)
+        U.random_fill(w_nc, rng, zero_p=0.0)
+        pair = _FO("0^ 1^", 0.5) + _FO("1 0", 0.5) + _FO("2^ 3^", 0.25) + _FO("3 2", 0.25) + _FO("0^ 0", 0.3)
+        h_c = fqe.get_restricted_hamiltonian((hmat,))
+        h_n = fqe.get_hamiltonian_from_openfermion(pair, norb=nb_, conserve_number=False)
+        for label, wv, hh in (("number-conserving Hamiltonian on a number-broken wavefunction", w_nb, h_c),
+                              ("number-breaking Hamiltonian on a number-conserving wavefunction", w_nc, h_n)):
+            for algo, kw in (("taylor", {}), ("chebyshev", {"spec_lim": [-3.0, 3.0]})):
+                before = wsnap(wv)
+                oc, _ = outcome(lambda: wv.apply_generated_unitary(0.1, algo, hh, **kw))
+                ctx.case(("agu-conservation", case, label, algo))
+                ctx.count(f"generated-unitary:conservation-mismatch:{'refused' if oc != 'ok' else 'answered'}")
+                if oc == "ok":
+                    ctx.disagree("refuse:generated-unitary:number-conservation-mismatch-answered",
+                                 f"apply_generated_unitary('{algo}') answered for a {label}", {"algo": algo, "operands": label})
+                if wsnap(wv) != before:
+                    ctx.disagree("refuse:operand-changed:generated-unitary", "operand changed", {"algo": algo, "operands": label})
+    # ---- coefficient data of the wrong shape: every array whose shape is not exactly (lena, lenb) is refused - one
+    #      extent wrong, both wrong, transposed, extra axes, one axis - and a refusal leaves *every* sector untouched --
+    for case in range(10 if quick else 80):
+        norb = rng.choice([2, 3, 4])
+        wv = C01.make_wfn(ctx, rng.choice(["single", "multi", "multi"]), norb, rng)
+        keys = sorted(wv.sectors())
+        victim = rng.choice(keys)
+        la, lb = wv.get_coeff(victim).shape
+        shapes = [(la, lb + 1), (la + 1, lb), (la - 1, lb) if la > 1 else (la, lb + 2), (la + 1, lb + 1), (la, lb, 2), (la * lb,), (1, la, lb)]
+        if la != lb:
+            shapes.append((lb, la))
+        for shp in shapes:
+            if 0 in shp:
+                continue
+            data = {k: numpy.full(wv.get_coeff(k).shape, 5.0 + 1.0j) for k in keys}
+            data[victim] = numpy.full(shp, 7.0, dtype=numpy.complex128)
+            tgt = copy.deepcopy(wv)
+            before = wsnap(tgt)
+            oc, _ = outcome(lambda: tgt.set_wfn(strategy="from_data", raw_data=data))
+            ctx.case(("set-wfn-shape", case, shp))
+            ctx.count(f"set_wfn-wrong-shape:{'refused' if oc != 'ok' else 'accepted'}")
+            dsc = {"norb": norb, "sectors": [list(map(int, k)) for k in keys], "victim": list(map(int, victim)), "sector_shape": [la, lb], "data_shape": list(shp)}
+            if oc == "ok":
+                ctx.disagree("refuse:coefficient-data-of-wrong-shape-accepted", f"set_wfn(from_data) accepted data of shape {shp} "
+                             f"for a {la} x {lb} sector", dsc)
+            elif wsnap(tgt) != before:
+                ctx.disagree("refuse:operand-changed:set_wfn", f"set_wfn(from_data) refused data of shape {shp} for sector {victim} "
+                             "after other sectors had been overwritten", dsc)
+    # ---- a single diagonal string (product of number operators) is Hermitian iff its coefficient is real ----------
+    for case in range(12 if quick else 100):
+        norb = rng.choice([2, 3])
+        modes = rng.sample(range(2 * norb), rng.choice([1, 2]))
+        T = tuple(x for m in modes for x in ((m, 1), (m, 0)))
+        c = complex(rng.choice([1.0, -0.5, 2.0]), rng.choice([0.0, 0.0, 1.5, -2.0]))
+        wv = C01.make_wfn(ctx, "single", norb, rng)
+        hg = fqe.get_sparse_hamiltonian(_FO(T, c))
+        for inplace in (False, True):
+            tgt = copy.deepcopy(wv)
+            before = wsnap(tgt)
+            oc, val = outcome(lambda: tgt.time_evolve(0.3, hg, inplace=inplace))
+            ctx.case(("diagonal-single-term", case, inplace))
+            ctx.count(f"individual:diagonal:{'real' if c.imag == 0 else 'complex'}:{'ok' if oc == 'ok' else 'refused'}")
+            dsc = {"norb": norb, "T": [list(x) for x in T], "c": [c.real, c.imag], "inplace": inplace}
+            if c.imag == 0 and oc != "ok":
+                ctx.disagree("refuse:hermitian-individual-generator-refused", f"real multiple of a number-operator string refused with {oc}", dsc)
+            if c.imag != 0:
+                if oc == "ok":
+                    ctx.disagree("refuse:nonhermitian-individual-generator-accepted",
+                                 "time_evolve answered for a number-operator string with a complex coefficient (non-Hermitian)", dsc)
+                elif wsnap(tgt) != before:
+                    ctx.disagree("refuse:operand-changed:individual-generator", "operand changed by the refused call", dsc)
     # ---- operator indices at and beyond the orbital range, sparse (<= 2 terms) and dense (> 2 terms) routes ----
     import fqe as _fqe_mod
     for nb_ in (2, 3):
